@@ -15,6 +15,70 @@ TRUSTED = ["oracle: libm atan2 (contract: atan2(K sin phi, K cos phi) = phi for 
 TOL = 1e-9
 
 
+IUPAC = {"alpha": [("O3'", -1), ("P", 0), ("O5'", 0), ("C5'", 0)], "beta": [("P", 0), ("O5'", 0), ("C5'", 0), ("C4'", 0)],
+         "gamma": [("O5'", 0), ("C5'", 0), ("C4'", 0), ("C3'", 0)], "delta": [("C5'", 0), ("C4'", 0), ("C3'", 0), ("O3'", 0)],
+         "epsilon": [("C4'", 0), ("C3'", 0), ("O3'", 0), ("P", 1)], "zeta": [("C3'", 0), ("O3'", 0), ("P", 1), ("O5'", 1)]}
+PURINES, PYRIMIDINES = ("A", "G", "DA", "DG"), ("C", "U", "T", "DC", "DT")
+
+
+def _iupac(p1, p2, p3, p4):
+    """IUPAC dihedral: positive when, looking from p2 to p3, the far bond is rotated clockwise from the near one"""
+    b0, b1, b2 = p1 - p2, p3 - p2, p4 - p3
+    b1 = b1 / np.linalg.norm(b1)
+    v = b0 - np.dot(b0, b1) * b1
+    w = b2 - np.dot(b2, b1) * b1
+    return math.atan2(np.dot(np.cross(b1, v), w), np.dot(v, w))
+
+
+def _v2_tables(ctx, tor2):
+    import warnings
+    from rnapolis.parser_v2 import parse_cif_atoms
+    from rnapolis.tertiary_v2 import Structure
+    warnings.simplefilter("ignore")
+    ref = geo.build_dihedral(1.5, 1.5, 1.5, math.radians(110), math.radians(110), math.radians(60))
+    sign = 1.0 if geo.angdiff(tor2(*ref), math.radians(60)) < 1e-7 else -1.0
+    n = 0
+    for name in ["1E7K_1_C.cif", "184D.cif", "1DFU_1_M-N.cif"] + ([] if ctx.quick else ["4WTI_1_T-P.cif", "4qln.cif", "1ehz-assembly-1.cif", "1JJP.cif"]):
+        try:
+            st = Structure(parse_cif_atoms(open(geo.corpus(name)).read()))
+            segments = st.connected_residues
+            table = st.torsion_angles
+        except Exception as e:  # noqa: BLE001
+            ctx.violation(f"the torsion table of the table-level reader raised {type(e).__name__}: {e}", {"file": name})
+            continue
+        rows = {(r["chain_id"], r["residue_number"], r["insertion_code"]): r for _, r in table.iterrows()}
+        for seg in segments:
+            for i, res in enumerate(seg):
+                row = rows.get((res.chain_id, res.residue_number, res.insertion_code))
+                if row is None:
+                    ctx.violation("a residue of a connected segment has no row in the torsion table", {"file": name, "residue": str(res)})
+                    continue
+                defs = dict(IUPAC)
+                if res.residue_name in PURINES:
+                    defs["chi"] = [("O4'", 0), ("C1'", 0), ("N9", 0), ("C4", 0)]
+                elif res.residue_name in PYRIMIDINES:
+                    defs["chi"] = [("O4'", 0), ("C1'", 0), ("N1", 0), ("C2", 0)]
+                for angle, quad in defs.items():
+                    pts = []
+                    for atom, off in quad:
+                        a = seg[i + off].find_atom(atom) if 0 <= i + off < len(seg) else None
+                        pts.append(None if a is None else np.array(a.coordinates, dtype=float))
+                    got = row.get(angle)
+                    missing = got is None or (isinstance(got, float) and math.isnan(got))
+                    if any(p is None for p in pts):
+                        if not missing:
+                            ctx.violation("the torsion table has a value although one of the four IUPAC atoms is absent", {"file": name, "residue": str(res), "angle": angle, "value": float(got)})
+                        continue
+                    want = sign * _iupac(*pts)
+                    n += 1
+                    ctx.count((name, str(res), angle, "v2-table"), True, "v2-table")
+                    if missing or geo.angdiff(float(got), want) > 1e-6:
+                        ctx.violation("an entry of the torsion table is not the torsion of its IUPAC atoms",
+                                      {"file": name, "residue": str(res), "angle": angle, "atoms": [list(q) for q in quad], "table_degrees": None if missing else math.degrees(float(got)),
+                                       "expected_degrees": math.degrees(want), "sign_convention_of_core": sign})
+    return n
+
+
 def run(ctx):
     from rnapolis.tertiary import calculate_torsion_angle_coords as tor1
     from rnapolis.tertiary_v2 import calculate_torsion_angle as tor2
@@ -103,6 +167,12 @@ def run(ctx):
             if anti < 0.7 * len(chis):
                 ctx.violation("glycosidic chi of an A-form helix is not anti", {"file": name, "chi_degrees": chis})
             ctx.coverage.setdefault("chi_median_degrees", {})[name] = sorted(chis)[len(chis) // 2]
+    # the table-level reader's torsion table (tertiary_v2.Structure.torsion_angles): every entry is the torsion of the IUPAC atoms
+    # (alpha O3'(i-1)-P-O5'-C5', beta P-O5'-C5'-C4', gamma O5'-C5'-C4'-C3', delta C5'-C4'-C3'-O3', epsilon C4'-C3'-O3'-P(i+1),
+    # zeta C3'-O3'-P(i+1)-O5'(i+1), chi O4'-C1'-N9-C4 / O4'-C1'-N1-C2), recomputed here from the named atoms with an own formula;
+    # the sign convention is the one the core function shows on a constructed +60 degree quadruple (the known finding)
+    table_n = _v2_tables(ctx, tor2)
+    ctx.coverage["v2_table_entries_checked"] = table_n
     ctx.coverage["v2_sign_cases_matched_to_known_finding"] = v2_sign_cases
     ctx.coverage["corpus_torsions"] = corpus_n
     if not ctx.model_ok:
